@@ -3,6 +3,11 @@
 package mapping
 
 import (
+	_ "github.com/blevesearch/bleve/v2/analysis/analyzer/custom"
+	_ "github.com/blevesearch/bleve/v2/analysis/datetime/flexible"
+	_ "github.com/blevesearch/bleve/v2/analysis/token/stop"
+	_ "github.com/blevesearch/bleve/v2/analysis/tokenizer/single"
+	_ "github.com/blevesearch/bleve/v2/analysis/tokenmap"
 	rt "github.com/blevesearch/bleve/v2/internal/verifrt"
 	"github.com/blevesearch/bleve/v2/util"
 )
@@ -124,4 +129,51 @@ func VerifH_C16_RoundTrip() {
 	rt.Assert(err == nil, "parsed mapping serialises")
 	rt.Assert(rt.JSONEqual(data, data2), "the parsed mapping serialises to the same JSON")
 	rt.Cover(len(im.DefaultMapping.Properties["p"].Fields) >= 1, "with-field-mapping")
+}
+
+// VerifH_C16_CustomAnalysis: a mapping that defines its own analysis components, each referring to
+// another custom component by name (token map <- stop filter <- analyzer <- synonym source, a custom
+// tokenizer and date-time parser; which of them are present is symbolic), built through the public
+// Add* methods, survives its JSON form: the parsed mapping registers every component again (the
+// parse succeeds whatever the definition order in the JSON object) and resolves the same names.
+func VerifH_C16_CustomAnalysis() {
+	im := NewIndexMapping()
+	withMap := rt.Choice("token_map", 2) == 1
+	withSyn := rt.Choice("synonym_source", 2) == 1
+	withDate := rt.Choice("date_time_parser", 2) == 1
+	var filters []interface{}
+	if withMap {
+		rt.Assert(im.AddCustomTokenMap("m", map[string]interface{}{"type": "custom", "tokens": []interface{}{"the"}}) == nil, "define token map")
+		rt.Assert(im.AddCustomTokenFilter("f", map[string]interface{}{"type": "stop_tokens", "stop_token_map": "m"}) == nil, "define token filter")
+		filters = append(filters, "f")
+	}
+	rt.Assert(im.AddCustomTokenizer("t", map[string]interface{}{"type": "single"}) == nil, "define tokenizer")
+	cfg := map[string]interface{}{"type": "custom", "tokenizer": "t"}
+	if filters != nil {
+		cfg["token_filters"] = filters
+	}
+	rt.Assert(im.AddCustomAnalyzer("a", cfg) == nil, "define analyzer")
+	if withSyn {
+		rt.Assert(im.AddSynonymSource("s", map[string]interface{}{"collection": "c", "analyzer": "a"}) == nil, "define synonym source")
+	}
+	if withDate {
+		rt.Assert(im.AddCustomDateTimeParser("d", map[string]interface{}{"type": "flexiblego", "layouts": []interface{}{"2006-01-02"}}) == nil, "define date time parser")
+	}
+	im.DefaultAnalyzer = "a"
+	data, err := util.MarshalJSON(im)
+	rt.Assert(err == nil, "mapping serialises")
+	var back IndexMappingImpl
+	err = util.UnmarshalJSON(data, &back)
+	rt.Assert(err == nil, "a mapping with custom analysis components parses back (every component can be registered again)")
+	if err != nil {
+		return
+	}
+	rt.Assert(back.AnalyzerNamed("a") != nil, "the custom analyzer is available after parsing")
+	if withDate {
+		rt.Assert(back.DateTimeParserNamed("d") != nil, "the custom date time parser is available after parsing")
+	}
+	rt.Assert(back.DefaultAnalyzer == "a", "default analyzer name survives")
+	rt.Assert(len(back.CustomAnalysis.Analyzers) == 1 && len(back.CustomAnalysis.Tokenizers) == 1, "custom definitions survive")
+	rt.Assert(len(back.CustomAnalysis.SynonymSources) == len(im.CustomAnalysis.SynonymSources), "synonym sources survive")
+	rt.Cover(withSyn && withMap, "synonym-source-over-custom-analyzer")
 }
